@@ -102,6 +102,8 @@ def case_recipe(G, espec, rng, nmods, annotate=False, refs=False, rotate=True, s
             if rng.random() < 0.3:
                 spec["ann"].pop("molecule_type")
                 spec["ann"]["topology"] = rng.choice(["circular", "Circular", "CIRCULAR"])
+        if rng.random() < 0.12:
+            spec["letter"] = True          # a per-letter annotation track on this input (some inputs have one, some do not)
         if annotate:
             # fragment boundaries in the rotated coordinates, to place features on them
             spec["feats"] = rnd_features(s2, rng, cites=len(spec.get("refs", [])) if refs else 0,
